@@ -21,7 +21,8 @@ RULE = ('2 scalar + 1 dimensioned measurement; assignment histories (set / overr
         'undeclared name / dimensioned without coordinates / wrong arity / interleaved) exhaustive to length 3 (quick) / 4 '
         '(thorough) + random to length 12; values {1,5,9,50,None,NaN,"s",2.5}; validators from {in_range with marginal '
         'band, equals, custom raising, custom accepting, conditional on a diagnosis result present / absent at phase '
-        'start / added mid-phase}; transforms {none, with_precision, lambda x: x*2}; the harness evaluates transform and '
+        'start / present only in an EARLIER run of the same Test / added mid-phase}; several marginal-aware validators in '
+        'both orders; transforms {none, with_precision, lambda x: x*2}; the harness evaluates transform and '
         'each validator on each pool value with the REAL objects and sends the verdict tables; the model supplies the '
         'bookkeeping; non-trivial = distinct history with at least one successful assignment')
 ASSUMPTIONS = ['validators are deterministic functions of the value (their verdict table is measured once per case)',
@@ -236,6 +237,20 @@ def run_real(case):
   for m in phase.measurements:
     m.conditional_validators[:] = [measurements._ConditionalValidator(enum[cv.result], cv.validator)
                                    for cv in m.conditional_validators]
+  if case.get('prior') is not None:
+    # an earlier run of the same Test in which other diagnosis results were present at phase start: what that run
+    # switched on must not be switched on in this one
+    st0 = test_state.TestState(t.descriptor, 'verif-c06-prior', t._test_options)
+    try:
+      for r in case['prior']:
+        st0.diagnoses_manager.store._add_diagnosis(diagnoses_lib.Diagnosis(enum['R%d' % r], 'present in the earlier run'))
+      c0 = st0.running_phase_context(phase)
+      p0 = c0.__enter__()
+      from openhtf.core import phase_executor, phase_descriptor
+      p0.result = phase_executor.PhaseExecutionOutcome(phase_descriptor.PhaseResult.CONTINUE)
+      c0.__exit__(None, None, None)
+    finally:
+      st0.close()
   state = test_state.TestState(t.descriptor, 'verif-c06', t._test_options)
   try:
     for r in case.get('store', []):
@@ -328,6 +343,10 @@ DECLSETS = [
      {'arity': 1, 'transform': 'double', 'validators': [['raise_on', 18], ['pivot_range', 0, 20, 15]]}],
     [{'validators': [['range', 0, 10, None, None]], 'conds': [[0, ['range', 0, 4, None, None]], [1, ['raising']]]},
      {'validators': [['raising']]}, {'arity': 1, 'validators': [['pivot_range', 0, 10, None]], 'conds': [[2, ['equals', 5]]]}],
+    # several marginal-aware validators on one measurement: marginal iff SOME validator says so, whatever their order
+    [{'validators': [['range', 0, 10, None, 8], ['range', 0, 20, None, 15]]},
+     {'validators': [['range', 0, 20, None, 15], ['range', 0, 10, None, 8]], 'conds': [[0, ['range', 0, 60, None, 30]]]},
+     {'arity': 1, 'validators': [['pivot_range', 0, 10, 8]]}],
 ]
 
 
@@ -363,7 +382,11 @@ def gen_cases(rng, tier):
     ops = [list(r.choice(alpha)) for _ in range(r.randint(1, 12))]
     if r.random() < 0.85:
       ops.append(['E'])
-    cases.append({'decls': decls, 'store': r.choice([[], [0], [1], [2], [0, 1, 2]]), 'ops': ops, 'src': 'random'})
+    c = {'decls': decls, 'store': r.choice([[], [0], [1], [2], [0, 1, 2]]), 'ops': ops, 'src': 'random'}
+    if r.random() < 0.35:
+      c['prior'] = r.choice([[0], [1], [2], [0, 1, 2], [0, 2]])
+      c['src'] = 'random/after-an-earlier-run'
+    cases.append(c)
   return cases
 
 
